@@ -45,6 +45,16 @@ CLAIMED["C18"] = ("model_checking",
   "Each corrupted configuration is run on a non-empty input and must be rejected (Err or clap usage error) with zero bytes on stdout and without the stdin factory being called.",
   "trusted: clap's own validation of enum/numeric option values.",
   "DESIGN.md §5 C18")
+CLAIMED["C19"] = ("model_checking",
+  "exhaustive enumeration of boundary integers x pipeline/function routes (digit-exact comparison) and of all pairs of decimal strings x nas operations against exact BigInt decimal arithmetic",
+  "~390 integers (powers of two +-1 up to 2^64, 2^53+-k, range ends, both signs) through 10 pipeline routes (incl. neighbour pairs n/n+1 through unique/sort/=) and 31 non-arithmetic function routes must come out digit for digit; all pairs over 120 (thorough 400) decimal strings (up to 60 digits, scale to 40, exponents to +-100, spelling variants) through \"+\" \"-\" \"*\", six comparisons, abs, unary minus and || are compared as exact rationals.",
+  "trusted: num-bigint. Outside: \"/\", \"%\", \"round\" (not claimed exact by the property).",
+  "DESIGN.md §5 C19")
+CLAIMED["C20"] = ("model_checking",
+  "exhaustive enumeration of a finite menu of real child processes (inputs x policies x configurations x stdout kinds x row separators), compared with the in-process run and with the strict reference reader",
+  "The jawk binary built from the working tree is spawned for every combination of 12 inputs, 4 policies, 11 configurations (+file arguments, missing file), stdout as pipe / EPIPE pipe / /dev/full, row separator with and without newline; stdout must equal the library run's rows, diagnostics under --on-error=stderr must be on stderr only, and the exit status must be 0 exactly when the run succeeded and every byte was accepted (and non-zero for malformed input under --on-error=panic, judged by the reference reader).",
+  "Outside: stdout as a closed descriptor (>&-), which std maps to success.",
+  "DESIGN.md §5 C20")
 NOT_YET = {}
 props=[json.loads(l) for l in open('/verif/properties.jsonl')]
 checks=[]; na=[]
